@@ -16,7 +16,7 @@ pub fn mon() -> Mon {
         run,
         finish,
         replay,
-        rule: "Configurations with every message-type list length 0..30 (random contents including 0x00, 0xFF and duplicates) and random vendor sets; histories of 10-120 operations (one in 40: 300-800 operations on one context) mixing 0-10 set_uuid calls, the three identity queries (Get Message Type Support, Get Endpoint UUID, Get MCTP Version Support with every query byte) and the C13 traffic mix (assignments, other queries, responses, vendor messages, corrupted/truncated packets, decode-only calls, accessor writes, garbage) on two interleaved contexts. Every response to the three queries is compared byte-for-byte and with exact length against the model: [0, n, types...], [0, the 16 bytes last installed (zero before any)], [0, 1, F1, F3, F1, 00]. A sample is logged as JSONL and re-checked in Python. Non-trivial = a history containing at least one of the three queries and at least one other operation; distinct = distinct histories.",
+        rule: "Configurations with every message-type list length 0..30 (random contents including 0x00, 0xFF and duplicates) and random vendor sets; histories of 10-120 operations (one in 40: 300-800 operations on one context) mixing 0-10 set_uuid calls, the three identity queries (Get Message Type Support, Get Endpoint UUID, Get MCTP Version Support with every query byte) and the C13 traffic mix (assignments, other queries, responses, vendor messages, corrupted/truncated packets, decode-only calls, accessor writes, garbage) on two interleaved contexts; plus 'observe - N mutations - observe' histories for every N in 1..600 (UUID updates, or other traffic, between two identical queries from the same requester). Every response to the three queries is compared byte-for-byte and with exact length against the model: [0, n, types...], [0, the 16 bytes last installed (zero before any)], [0, 1, F1, F3, F1, 00]. A sample is logged as JSONL and re-checked in Python. Non-trivial = a history containing at least one of the three queries and at least one other operation; distinct = distinct histories.",
         assumptions: &["message-type lists of at most 30 entries (the documented bound)", "set_uuid is given exactly 16 bytes"],
         children: no_children,
     }
@@ -109,6 +109,9 @@ fn run(cfg: &RunCfg) -> Report {
     let sh = cfg.shard as u64;
     let small = cfg.is_small();
     let per_len = if small { 1 } else { cfg.n(cfg.pick(2000, 40_000)) };
+    if !small {
+        wrap_histories(cfg, &mut rng, &mut rep);
+    }
     let mut idx = 0u64;
     for ntypes in 0..=30usize {
         for k in 0..per_len {
@@ -124,6 +127,56 @@ fn run(cfg: &RunCfg) -> Report {
         }
     }
     rep
+}
+
+/// observe - N mutations - observe for the identity answers: every N in 1..=600.
+fn wrap_histories(cfg: &RunCfg, rng: &mut Rng, rep: &mut Report) {
+    let ns = cfg.nshards as u64;
+    let sh = cfg.shard as u64;
+    let mut idx = 0u64;
+    let mut nh = 0u64;
+    for kind in 0..3u8 {
+        for n in 1..=600usize {
+            idx += 1;
+            if idx % ns != sh {
+                continue;
+            }
+            let cfgs = vec![gen_cfg(rng, n % 31)];
+            let m = Model::new(&cfgs[0]);
+            let own = cfgs[0].addr & 0x7F;
+            let requester = rng.byte() & 0x7F;
+            let cmd = [0x03u8, 0x05, 0x04][kind as usize];
+            let q = || Op::Process(ctrl_request(own, requester, 0, false, cmd, if cmd == 0x04 { &[0xFF][..] } else { &[][..] }));
+            let mut ops: Vec<(usize, Op)> = Vec::with_capacity(n + 3);
+            let mut letters: Vec<Letter> = Vec::with_capacity(n + 3);
+            ops.push((0, instantiate(Letter::SetUuid, rng, &m)));
+            letters.push(Letter::SetUuid);
+            ops.push((0, q()));
+            letters.push(Letter::Query);
+            for _ in 0..n {
+                let l = match kind {
+                    0 => Letter::SetUuid,
+                    1 => *rng.pick(&[Letter::SetEid, Letter::Query, Letter::Corrupted, Letter::VendorMsg]),
+                    _ => *rng.pick(&[Letter::SetUuid, Letter::SetEid, Letter::OtherRequest, Letter::Accessor]),
+                };
+                // the mutations must not contain the observed query itself
+                let mut op = instantiate(l, rng, &m);
+                if let Op::Process(p) = &op {
+                    if p.len() > 10 && p[8] == 0 && p[9] & 0x80 != 0 && p[10] == cmd {
+                        op = Op::Process(ctrl_request(own, requester, 1, false, 0x02, &[]));
+                    }
+                }
+                ops.push((0, op));
+                letters.push(l);
+            }
+            ops.push((0, q()));
+            letters.push(Letter::Query);
+            let h = History { cfgs, ops };
+            run_history(&h, Some(&letters), &OWNED, 0xC15, rep, None);
+            nh += 1;
+        }
+    }
+    rep.class_n("observe-N-mutations-observe-histories", nh);
 }
 
 fn finish(rep: &mut Report, cfg: &RunCfg) {
